@@ -437,6 +437,9 @@ def cases(tier, rng):
         if form == "array":
             c["chunksize"] = rng.randint(1, n + 1)
             c["dtype"] = rng.choice(["int32", "int64"])
+            if k % 2:
+                # signed values: a block of rows may sum to zero without being empty
+                c["pixels"] = [[i, j, rng.choice([-2, -1, 1, 2])] for i, j, _ in px]
         yield "roundtrip", c
     # exhaustive chunkings of a small table
     for symm in (True, False):
@@ -487,9 +490,14 @@ def cases(tier, rng):
                     vals = [rng.choice(pool) for _ in range(k)]
                 yield "value_dtypes", {"given": g, "stored": st, "values": vals, "column": rng.choice(["count", "count", "score"]),
                                        "form": rng.choice(["frame", "dict", "chunks"])}
-    for _ in range(60 if thorough else 15):
+    # a dense array with signed values whose row blocks cancel (seeded change C01-5)
+    yield "roundtrip", {"bins": gen.layout_bins([5]), "pixels": [[0, 0, 3], [0, 1, 2], [0, 2, -5], [1, 1, -2], [2, 2, 5], [3, 4, 1]], "symm": True,
+                        "form": "array", "chunksize": 1, "dtype": "int32", "extra": [], "h5opts": "default", "seed": 0}
+    yield "array_loader", {"A": [[3, 2, -5], [2, -2, 0], [-5, 0, 5]]}
+    for t in range(60 if thorough else 15):
         n = rng.randint(1, 6)
-        A = [[rng.choice([0, 0, 1, 2, 5]) for _ in range(n)] for _ in range(n)]
+        vals = [0, 0, 1, 2, 5] if t % 3 else [0, -2, -1, 1, 2]
+        A = [[rng.choice(vals) for _ in range(n)] for _ in range(n)]
         for i in range(n):
             for j in range(i):
                 A[i][j] = A[j][i]
